@@ -25,7 +25,7 @@ inductive Aave.SmUserStep (env : Env) : St → St → Prop
       SmUserStep env s s'
   | changeCollateral {s s' : St} (tok : String) (flag : Bool) :
       changeCollateral aaveExact env tok flag s = (.ok (), s') →
-      (flag = true → 0 < (rowOf env tok).lt) → SmUserStep env s s'
+      ((rowOf env tok).canColl = true → 0 < (rowOf env tok).lt) → SmUserStep env s s'
   | read (s : St) (v : View) : SmUserStep env s (step aaveExact env s (.read v)).2
 
 inductive Aave.SmUserSteps (env : Env) : St → St → Prop
@@ -103,7 +103,7 @@ theorem Aave.smUserStep_sim (hE : EnvOK env) (hopen : env.isOpen = true) (hW : E
       rw [hcc] at e; cases e
       rw [hp]
       refine AaveRisk.UserStep.changeCollateral _ tok flag p' hr ?_
-      intro hf sp hsp
+      intro sp hsp hcan
       rw [show (proj env t).supplies = t.supplies.map (projSup env) from rfl, findSupply_proj] at hsp
       cases hg' : AList.get? t.supplies tok with
       | none => rw [hg'] at hsp; cases hsp
@@ -111,7 +111,7 @@ theorem Aave.smUserStep_sim (hE : EnvOK env) (hopen : env.isOpen = true) (hW : E
         rw [hg'] at hsp
         simp only [Option.map_some, Option.some.injEq] at hsp
         subst hsp
-        exact hlt hf
+        exact hlt hcan
   | read v =>
     obtain ⟨_, h2, h3⟩ := C13_read_eq_scratch t ht v
     refine ⟨readInv_good.readView v t ht, Or.inl ?_⟩
